@@ -499,14 +499,23 @@ func (x *c01) hostile() {
 			continue
 		}
 		b := env()
-		if kind == "generated" || kind == "mutated-generated" {
+		if i%11 == 3 {
+			// no bindings at all: Render(nil) is legal, and assign / capture / loops then have to create variables
+			b = nil
+		}
+		if b != nil && (kind == "generated" || kind == "mutated-generated") {
 			for k, v := range gen.CanonEnv(stdenv) {
 				if _, ok := b[k]; !ok {
 					b[k] = v
 				}
 			}
 		}
-		x.run("hostile-"+kind, "", src, b, 8, func() string { return "hostile env: " + gen.DescribeEnv(b) })
+		x.run("hostile-"+kind, "", src, b, 8, func() string {
+			if b == nil {
+				return "nil bindings"
+			}
+			return "hostile env: " + gen.DescribeEnv(b)
+		})
 		c.Obs("hostile_sources", 1)
 		c.Obs("hostile:"+kind, 1)
 		c.Distinct("h", src)
